@@ -612,6 +612,78 @@ def check_singleton(acc):
         core.unload_source(ns)
 
 
+RECNEW_SRC = '''\
+import collections
+import icontract
+LOG = []
+BAD = {"depth": None}
+def inv(self):
+    LOG.append(("inv", self.depth))
+    return self.depth != BAD["depth"]
+@icontract.invariant(inv)
+class N(STYLE_BASE):
+    STYLE_BODY
+def build(cls, depth, width):
+    # a __new__ which creates further instances of the same class before / after / around creating its own
+    kids = tuple(cls(depth - 1, width) for _ in range(width)) if depth > 0 and ORDER != "after" else ()
+    obj = MAKE
+    if depth > 0 and ORDER == "after":
+        kids = tuple(cls(depth - 1, width) for _ in range(width))
+        LATE
+    return obj
+'''
+RECNEW_STYLES = {
+    "plain": ("icontract.DBC", "def __new__(cls, depth, width):\n        return build(cls, depth, width)",
+              "object.__new__(cls); obj.depth = depth; obj.kids = kids", "obj.kids = kids"),
+    "namedtuple": ("collections.namedtuple('NBase', 'depth kids')", "__slots__ = ()\n    def __new__(cls, depth, width):\n        return build(cls, depth, width)",
+                   "tuple.__new__(cls, (depth, kids))", "pass"),
+}
+
+
+def check_recursive_new(acc):
+    """Instances of the same class created inside the __new__ of another instance are objects of their own: each is checked."""
+    for style, (base, body, make, late) in RECNEW_STYLES.items():
+        for order in ("before", "after"):
+            if style == "namedtuple" and order == "after":
+                continue  # an immutable record can not take its children later
+            src = (RECNEW_SRC.replace("STYLE_BASE", base).replace("STYLE_BODY", body).replace("MAKE", make).replace("LATE", late)
+                   .replace("ORDER", repr(order)))
+            ns = core.load_source(src, "c10n")
+            try:
+                for depth, width in ((0, 1), (1, 1), (1, 2), (2, 1), (2, 2)):
+                    n_at = {d: width ** (depth - d) for d in range(depth + 1)}  # instances per level
+                    for bad in [None] + list(range(depth + 1)):
+                        def go():
+                            ns["BAD"]["depth"] = bad
+                            del ns["LOG"][:]
+                            try:
+                                ns["N"](depth, width)
+                                return "ret"
+                            except BaseException as e:  # noqa
+                                return type(e).__name__
+                        out = core.fresh_ctx_run(go)
+                        log = list(ns["LOG"])
+                        acc.case(("recursive_new", style, order, depth, width, bad), True, len(log), out)
+                        feats = {"family": "recursive_new", "style": style, "order": order, "depth": depth, "width": width, "bad": bad,
+                                 "slots": "recursive_new", "nslots": 0, "total_len": 0, "falsy": bad}
+                        script = src + "\n# N({}, {}) with the invariant falsy at depth {}\n".format(depth, width, bad)
+                        problem = None
+                        if bad is None:
+                            counts = {d: sum(1 for e in log if e == ("inv", d)) for d in n_at}
+                            if out != "ret":
+                                problem = ("unexpected_exception", "ended with {}".format(out))
+                            elif any(counts[d] < n_at[d] for d in n_at):
+                                problem = ("call_not_fully_checked", "instances per depth {} but invariant evaluations per depth {}".format(n_at, counts))
+                        elif out != "ViolationError":
+                            problem = ("call_not_fully_checked", "an instance at depth {} violates the invariant, the construction ended with {} (log {})".format(bad, out, log))
+                        if problem:
+                            acc.violation(core.Violation(PROP, problem[0], feats, "recursive __new__ ({}, children created {} the instance itself): N({}, {}): {}".format(
+                                style, order, depth, width, problem[1]), spec={"recursive_new": [style, order, depth, width, bad]}, script=script))
+            finally:
+                core.unload_source(ns)
+    acc.sample({"family": "recursive_new"}, cap=1)
+
+
 def work(chunk):
     acc = core.Acc()
     old = sys.getrecursionlimit()
@@ -620,6 +692,8 @@ def work(chunk):
         for prog in chunk:
             if prog == "singleton":
                 check_singleton(acc)
+            elif prog == "recursive_new":
+                check_recursive_new(acc)
             elif isinstance(prog, tuple):
                 check_copied_context(prog, acc)
             else:
@@ -634,7 +708,7 @@ def work(chunk):
 def run(tier, t0):
     progs = programs(tier)
     copied = copied_context_cases()
-    tot = core.merge(core.pmap(work, core.rotate(progs + copied) + ["singleton"]))
+    tot = core.merge(core.pmap(work, core.rotate(progs + copied) + ["singleton", "recursive_new"]))
     return core.finish(
         PROP, tier, tot, t0,
         rule="call-graph programs over f (pre/capture/post), g and g2 (pre/post, made by one factory: shared code objects), h (capture/post "
@@ -649,7 +723,9 @@ def run(tier, t0):
              "copy_context().run in a worker do), with one of 7 re-entering scripts elsewhere; after the first top-level action has finished, "
              "each of 5 top-level actions runs inside the copied context and is judged as a fresh top-level call (terminates, fully checked); "
              "plus 72 singleton programs (class checked through __new__, no constructor; invariant and method body obtain the object through the constructor "
-             "or call its method): termination".format(len(copied)),
+             "or call its method): termination; plus classes without a constructor whose __new__ creates further instances of the same class "
+             "(plain objects and named tuples, children made before / after the instance itself, depth <= 2, width <= 2, invariant falsy at each depth): "
+             "every instance is checked".format(len(copied)),
         assumptions=["body scripts run at most twice per run (the program's own recursion is finite); contract scripts are unguarded",
                      "recursion limit 600 frames, 6000 events as the runaway detector"],
         bounds={"programs": len(progs), "max_nonempty_slots": 2 if tier == "quick" else 3, "max_script_len": 2},
@@ -662,6 +738,8 @@ def replay(path):
     sys.setrecursionlimit(600)
     if data.get("singleton"):
         check_singleton(acc)
+    elif data.get("recursive_new"):
+        check_recursive_new(acc)
     elif data.get("copied"):
         check_copied_context((data["prog"], data["top"], data["later_top"]), acc)
     else:
